@@ -29,7 +29,7 @@ def gen_cases(ctx, n):
     return dtwrap.one_case("lh1")
 
 
-evaluate = dtwrap.evaluate_with("difftest_lh1.py", ID, quick_scale=1.0, thorough_scale=1.0)
+evaluate = dtwrap.evaluate_with("difftest_lh1.py", ID, quick_scale=1.0, thorough_scale=4.0)
 
 
 def nontrivial(c):
